@@ -279,7 +279,7 @@ func runCase(c TCase) (r result) {
 		h, sconn, _ := Present(c.A.Cfg, w, sizes, 0, &r.sc)
 		r.h = h
 		if sconn != nil {
-			r.ops = RunOps(sconn, c.Reads, c.A.Cfg, c.A.Target, false, true)
+			r.ops = RunOps(sconn, c.Reads, c.A.Cfg, c.A.Target, false, true, true)
 			for _, o := range r.ops {
 				r.sc.Add(OpLine(0, "s", o.Op, 0, true), OpExpect(o, false))
 			}
@@ -293,9 +293,13 @@ func runCase(c TCase) (r result) {
 	}
 	rfixed := c.A.Cfg.RespPrefix.Len + c.A.Cfg.KeyLen + 11 + c.A.Cfg.KeyLen + TagSize
 	r.firstReadShort = !c.A.Cfg.AllowSeg && first < rfixed
-	r.sc.Add(fmt.Sprintf("0 cseg %d", first), "ok")
+	if c.SegMode == "bytes" {
+		r.sc.Add(fmt.Sprintf("0 cseg %d 1", first), "ok")
+	} else {
+		r.sc.Add(fmt.Sprintf("0 cseg %d", first), "ok")
+	}
 	now := time.Now().Unix()
-	r.ops = RunOps(obsA.CC, c.Reads, c.A.Cfg, c.A.Target, true, true)
+	r.ops = RunOps(obsA.CC, c.Reads, c.A.Cfg, c.A.Target, true, true, true)
 	for _, o := range r.ops {
 		r.sc.Add(OpLine(0, "c", o.Op, now, true), OpExpect(o, false))
 	}
@@ -378,11 +382,19 @@ func oracle(r result) (string, string) {
 	}
 	pos := have
 	sawRead := false
+	sawErr := false
 	for i, o := range r.ops {
 		if strings.HasPrefix(o.Err, "panic:") || strings.HasPrefix(o.Err, "harness:") || strings.HasPrefix(o.Err, "sink-wire") {
 			return c.Dir + ":" + strings.SplitN(o.Err, ":", 2)[0], fmt.Sprintf("%s op %d: %s", c.Kind, i, o.Err)
 		}
 		rem := gen.stream[min(pos, len(gen.stream)):]
+		if sawErr && len(o.Bytes) > 0 && !bytes.HasPrefix(rem, o.Bytes) {
+			// bytes handed over by a call issued after an earlier call had failed
+			if bytes.Contains(rem, o.Bytes) && len(o.Bytes) > 4 {
+				return c.Dir + ":resync-after-error", fmt.Sprintf("%s op %d (%s): after a failed call the conn went on and delivered %d later bytes of the stream (a hole: not a prefix)", c.Kind, i, o.Op.Kind, len(o.Bytes))
+			}
+			return "F22:read-after-error-delivers-non-genuine", fmt.Sprintf("%s op %d (%s): after a failed call the conn delivered %x, which the genuine peer never sent at this point (offset %d)", c.Kind, i, o.Op.Kind, o.Bytes[:min(len(o.Bytes), 16)], pos)
+		}
 		if !bytes.HasPrefix(rem, o.Bytes) && sawRead && o.Op.Kind != "read" && len(o.Bytes) > 0 {
 			// the copy skipped a stretch of at most one chunk and went on with genuine bytes: the left-over of the earlier Read was dropped (finding F1)
 			if x := bytes.Index(rem[:min(len(rem), 65535+len(o.Bytes))], o.Bytes); x > 0 {
@@ -393,10 +405,17 @@ func oracle(r result) (string, string) {
 			return c.Dir + ":delivered-not-genuine-prefix", fmt.Sprintf("%s op %d (%s): %d bytes delivered at offset %d are not what the genuine peer wrote", c.Kind, i, o.Op.Kind, len(o.Bytes), pos)
 		}
 		pos += len(o.Bytes)
-		if pos > limit {
+		if pos > limit && !sawErr {
 			return c.Dir + ":delivered-beyond-alteration", fmt.Sprintf("%s op %d (%s): %d bytes delivered, only %d are carried by chunks wholly before the first altered offset %d", c.Kind, i, o.Op.Kind, pos, limit, d)
 		}
 		ended := (o.Op.Kind == "read" && o.Err == "eof") || (o.Op.Kind != "read" && o.Err == "ok")
+		if ended && sawErr {
+			// the stream failed earlier; a later clean end of stream is only acceptable if the transport is exhausted and nothing was handed over
+			if len(o.Bytes) > 0 {
+				return c.Dir + ":data-after-error", c.Kind
+			}
+			continue
+		}
 		if ended {
 			cleanCut := d < 0 || (d == len(w) && (d == 0 || gen.isBoundary(d)))
 			if !cleanCut {
@@ -415,6 +434,9 @@ func oracle(r result) (string, string) {
 		if o.Op.Kind == "read" {
 			sawRead = true
 		}
+		if o.Err != "ok" && o.Err != "eof" {
+			sawErr = true
+		}
 	}
 	return "", ""
 }
@@ -429,6 +451,11 @@ func genSession(r *common.Rng, cfg Cfg, nwrites int) Case01 {
 	}
 	s.Payload = Data{Seed: r.U64(), Len: common.Pick(r, []int{0, 0, 1, 2, 50, 899, 900, 1200})}
 	for i := 0; i < nwrites; i++ {
+		if r.Chance(1, 5) {
+			// a 2-byte write whose content reads as a small chunk length (cf. F22: a payload chunk opened as a length chunk)
+			s.Writes = append(s.Writes, WOp{Kind: "write", Data: RawData([]byte{0, byte(common.Pick(r, []int{1, 2, 2, 2, 16, 18}))})})
+			continue
+		}
 		s.Writes = append(s.Writes, WOp{Kind: "write", Data: Data{Seed: r.U64(), Len: common.Pick(r, []int{1, 2, 2, 2, 16, 18, 100, 1000, r.Range(1, 5000)})}})
 	}
 	if r.Chance(1, 40) {
@@ -451,18 +478,26 @@ func genCfg(r *common.Rng) Cfg {
 
 func genReads(r *common.Rng) []ROp {
 	var ops []ROp
+	again := []ROp{{Kind: "read", N: 70000}, {Kind: common.Pick(r, []string{"writeto", "tunnel", "read"}), N: 100}, {Kind: "read", N: 70000}, {Kind: "read", N: 2}}
 	switch r.Intn(6) {
 	case 0:
-		return []ROp{{Kind: "writeto"}}
+		return append([]ROp{{Kind: "writeto"}}, again...)
 	case 1:
-		return []ROp{{Kind: "tunnel", ViaReadFrom: r.Bool()}}
+		return append([]ROp{{Kind: "tunnel", ViaReadFrom: r.Bool()}}, again...)
 	case 2:
 		ops = append(ops, ROp{Kind: "read", N: common.Pick(r, []int{1, 2, 100})}, ROp{Kind: common.Pick(r, []string{"writeto", "tunnel"})})
-		return ops
+		return append(ops, again...)
 	}
 	n := common.Pick(r, []int{70000, 70000, 65551, 4096, 100, 17, 2})
 	for i := 0; i < 60; i++ {
 		ops = append(ops, ROp{Kind: "read", N: n})
+	}
+	// the caller goes on after whatever happened: more reads, then the copy paths
+	switch r.Intn(3) {
+	case 0:
+		ops = append(ops, ROp{Kind: "writeto"}, ROp{Kind: "read", N: n})
+	case 1:
+		ops = append(ops, ROp{Kind: "tunnel", ViaReadFrom: r.Bool()}, ROp{Kind: "read", N: n})
 	}
 	return ops
 }
@@ -539,6 +574,21 @@ func genCase(r *common.Rng, idx int) TCase {
 		}
 	}
 	return c
+}
+
+// directed probes of finding F22 (errors of the unrepaired code are not sticky: a read issued after
+// an authentication failure opens a genuine 2-byte payload chunk as a length chunk and hands the next
+// length field to the caller)
+func probes() []TCase {
+	w := []WOp{{Kind: "write", Data: RawData([]byte("hello"))}, {Kind: "write", Data: RawData([]byte{0, 2})}, {Kind: "write", Data: RawData([]byte("7bytes!"))}}
+	a := Case01{Cfg: Cfg{KeyLen: 32, KeySeed: 7}, Target: Target{Kind: "4", IP: "1.2.3.4", Port: 80}, Writes: w}
+	rd := []ROp{{Kind: "read", N: 70000}, {Kind: "read", N: 70000}, {Kind: "read", N: 70000}, {Kind: "read", N: 70000}, {Kind: "writeto"}}
+	return []TCase{
+		// client->server: duplicate the length chunk of the 2-byte write (boundary 5 = end of the first data chunk)
+		{A: a, Dir: "c2s", Kind: "probe-F22-dup-length-chunk", T: Tamper{Op: "dup", Off: -6, Len: -1}, Reads: rd, SegMode: "one"},
+		// server->client: "hello" travels with the response header, boundary 3 = end of the first payload chunk
+		{A: a, Dir: "s2c", Kind: "probe-F22-dup-length-chunk", T: Tamper{Op: "dup", Off: -4, Len: -1}, Reads: rd, SegMode: "one"},
+	}
 }
 
 // ---------- evaluation ----------
@@ -633,6 +683,9 @@ func evalCases(cases []TCase, o *common.Options, rep *common.Report) error {
 		}
 		if key, detail := oracle(r); key != "" {
 			rep.Fail(common.OracleFailure{Engine: "tamper", Key: key, Case: c, Detail: detail})
+			if strings.HasPrefix(key, "F22") {
+				rep.FindingsProbed[key] = true
+			}
 		}
 		if answers[i] != nil {
 			for j, a := range answers[i] {
@@ -663,6 +716,8 @@ func main() {
 			err = evalCases([]TCase{c}, o, rep)
 		}
 	} else {
+		rep.FindingsProbed["F22:read-after-error-delivers-non-genuine"] = false
+		err = evalCases(probes(), o, rep)
 		r := common.NewRng(o.Seed)
 		n := o.Budget(3000, 100000)
 		var cases []TCase
